@@ -1,6 +1,7 @@
 use crate::runner::Property;
 
 pub mod c01;
+pub mod c02;
 pub mod c07;
 pub mod c09;
 pub mod c10;
@@ -15,6 +16,7 @@ pub mod c17;
 pub fn get(id: &str) -> Option<Property> {
     Some(match id {
         "C01" => c01::property(),
+        "C02" => c02::property(),
         "C07" => c07::property(),
         "C09" => c09::property(),
         "C10" => c10::property(),
